@@ -165,7 +165,7 @@ CmpDigits(x, y) ==
             ELSE CmpDigits(IF x = <<>> THEN <<>> ELSE Tail(x), IF y = <<>> THEN <<>> ELSE Tail(y))
 RECURSIVE DigitsToInt(_, _)
 DigitsToInt(ds, acc) == IF ds = <<>> THEN acc ELSE DigitsToInt(Tail(ds), acc * 10 + Head(ds))
-Pad(ds, k) == ds \o [i \in 1..(k - Len(ds)) |-> 0]
+Pad(ds, k) == IF k <= Len(ds) THEN ds ELSE ds \o [i \in 1..(k - Len(ds)) |-> 0]
 
 CmpQQ(a, b) ==
     LET fa == FloorQ(a)  fb == FloorQ(b) IN
